@@ -1716,7 +1716,6 @@ func FuzzC23Decode(f *testing.F) {
 	})
 }
 
-
 // ---------------------------------------------------------------------------------------------
 // surplus: lists that hold more elements than the target reads (how goloop stays compatible with
 // newer encodings of a structure), and values written through the explicit list API
